@@ -281,4 +281,12 @@ theorem checkAll_width (fl : Flags) : ∀ (is : List Item) (l l' : Tok) (ts rest
     simp [Item.yieldAll]; omega
 end
 
+theorem check_len {fl : Flags} {i : Item} {l l' : Tok} {ts rest : List Tok}
+    (h : i.check fl l ts = some (l', rest)) : rest.length ≤ ts.length := by
+  have := check_width fl i l l' ts rest h; omega
+
+theorem checkAll_len {fl : Flags} {is : List Item} {l l' : Tok} {ts rest : List Tok}
+    (h : Item.checkAll fl is l ts = some (l', rest)) : rest.length ≤ ts.length := by
+  have := checkAll_width fl is l l' ts rest h; omega
+
 end PyGql.Spec
